@@ -43,7 +43,11 @@ type ShadowStreamServerConn struct {
 // WriteTo implements [io.WriterTo].
 func (c *ShadowStreamServerConn) WriteTo(w io.Writer) (n int64, err error) {
 	if w, ok := w.(*ShadowStreamClientConn); ok {
-		return c.ShadowStreamConn.writeToShadowStreamConn(&w.ShadowStreamConn)
+		if n, err = c.ShadowStreamConn.flushReadBuf(w); err != nil {
+			return n, err
+		}
+		nn, err := c.ShadowStreamConn.writeToShadowStreamConn(&w.ShadowStreamConn)
+		return n + nn, err
 	}
 	return c.ShadowStreamConn.WriteTo(w)
 }
@@ -238,7 +242,11 @@ func (c *ShadowStreamClientConn) writeToServerConn(w *ShadowStreamServerConn) (n
 		return n, err
 	}
 
-	return c.ShadowStreamConn.writeToShadowStreamConn(&w.ShadowStreamConn)
+	if n, err = c.ShadowStreamConn.flushReadBuf(w); err != nil {
+		return n, err
+	}
+	nn, err := c.ShadowStreamConn.writeToShadowStreamConn(&w.ShadowStreamConn)
+	return n + nn, err
 }
 
 func (c *ShadowStreamClientConn) writeToGeneric(w io.Writer) (n int64, err error) {
@@ -334,7 +342,11 @@ func (c *ShadowStreamClientConn) readFirstPayloadChunk(b []byte) error {
 // ReadFrom implements [io.ReaderFrom].
 func (c *ShadowStreamClientConn) ReadFrom(r io.Reader) (n int64, err error) {
 	if r, ok := r.(*ShadowStreamServerConn); ok {
-		return r.ShadowStreamConn.writeToShadowStreamConn(&c.ShadowStreamConn)
+		if n, err = r.ShadowStreamConn.flushReadBuf(c); err != nil {
+			return n, err
+		}
+		nn, err := r.ShadowStreamConn.writeToShadowStreamConn(&c.ShadowStreamConn)
+		return n + nn, err
 	}
 	return c.ShadowStreamConn.ReadFrom(r)
 }
@@ -410,8 +422,22 @@ func (c *ShadowStreamConn) Read(b []byte) (n int, err error) {
 	return n, nil
 }
 
+// flushReadBuf writes the bytes left over from a previous partial Read to w.
+func (c *ShadowStreamConn) flushReadBuf(w io.Writer) (int64, error) {
+	if c.readStart == len(c.readBuf) {
+		return 0, nil
+	}
+	nw, err := w.Write(c.readBuf[c.readStart:])
+	c.readStart += nw
+	return int64(nw), err
+}
+
 // WriteTo implements [io.WriterTo].
 func (c *ShadowStreamConn) WriteTo(w io.Writer) (n int64, err error) {
+	if n, err = c.flushReadBuf(w); err != nil {
+		return n, err
+	}
+
 	b := c.getReadBuf()
 
 	for {
